@@ -76,7 +76,7 @@ static ucontext_t main_ctx;
 static ucontext_t *top_p;      /* lives on main()'s stack: survives the data-segment restore */
 
 /* world */
-static int py_initialized, py_initializing, py_init_count;
+static int py_initialized, py_initializing, py_init_count, py_initializer = -1;
 static int gil_owner = -1;
 static struct { int state, init_thread, evalcount, modinit, fault, failed;
                 int nsteps; istep_t steps[MAXSTEPS]; } lib[2];
@@ -493,12 +493,18 @@ void Py_InitializeEx(int initsigs)
         violate("C28.1", "Py_InitializeEx() entered by T%d while another thread is inside it", cur);
     if (++py_init_count > 1)
         violate("C28.1", "Py_InitializeEx() entered %d times", py_init_count);
-    py_initializing = 1; co[cur].in_pyinit = 1;
+    py_initializing = 1; py_initializer = cur; co[cur].in_pyinit = 1;
     point("pyinit-1", 0, 1);
+    /* as in CPython: the 'initialized' flag becomes visible before Py_InitializeEx() returns
+       (site, sitecustomize and .pth processing still follow, and may block with the GIL released) */
+    py_initialized = 1;
+    gil_owner = cur;
+    change_epoch++;
     point("pyinit-2", 0, 1);
+    gil_drop("pyinit-site-blocks");
+    gil_take("pyinit-site-resumes");
     point("pyinit-3", 0, 1);
     py_initializing = 0; co[cur].in_pyinit = 0;
-    py_initialized = 1;
     gil_owner = cur;                  /* returns holding the GIL */
     change_epoch++;
     event("pyinit-done", 0);
@@ -512,9 +518,17 @@ PyThreadState *PyEval_SaveThread(void)
     return (PyThreadState *)&o_str;
 }
 
+static void check_not_half_initialized(const char *what)
+{
+    if (py_initializing && cur != py_initializer)
+        violate("C28.1", "T%d calls %s while Py_InitializeEx() is still running in T%d: the interpreter is used "
+                "before its (single) initialization has finished", cur, what, py_initializer);
+}
+
 PyGILState_STATE PyGILState_Ensure(void)
 {
     point("GILState_Ensure", 0, 0);
+    check_not_half_initialized("PyGILState_Ensure()");
     if (!py_initialized)
         violate("C28.4", "PyGILState_Ensure() called by T%d before Python is initialized (fatal error in CPython)", cur);
     if (gil_owner == cur) return PyGILState_LOCKED;
@@ -619,6 +633,7 @@ PyObject *PyEval_EvalCode(PyObject *code, PyObject *g, PyObject *loc)
 {
     int l = ((SObj *)code)->lib, i;
     event("EvalCode", l);
+    check_not_half_initialized("PyEval_EvalCode()");
     if (gil_owner != cur) harness("PyEval_EvalCode without the GIL");
     if (++lib[l].evalcount > 1)
         violate("C28.2", "the init code of lib%c ran %d times", 'A' + l, lib[l].evalcount);
